@@ -157,11 +157,33 @@ Definition dec_index (x : sexp) : option index :=
            else None
        | _ => None
        end.
+(* byte-string format: absent = quoted, `byte`, or (raw n) *)
+Definition dec_fmt (x : sexp) : option bytes_format :=
+  if sym_is "byte" x then Some FByte
+  else match x with
+       | SList [h; n] => if sym_is "raw" h then option_map FRaw (as_N n) else None
+       | _ => None
+       end.
+Definition enc_fmt (f : bytes_format) : list sexp :=
+  match f with
+  | FQuoted => []
+  | FByte => [sym "byte"]
+  | FRaw n => [SList [sym "raw"; SInt (Z.of_N n)]]
+  end.
+(* a byte-string literal inside a list: #hex or (#hex fmt) *)
+Definition dec_blit (x : sexp) : option (bytes * bytes_format) :=
+  match x with
+  | SBytes b => Some (b, FQuoted)
+  | SList [SBytes b; f] => option_map (pair b) (dec_fmt f)
+  | _ => None
+  end.
+
 Definition dec_rhs (x : sexp) : option rhs :=
   match x with
+  | SList [h; SBytes b; f] => if sym_is "s" h then option_map (RBytes b) (dec_fmt f) else None
   | SList [h; a] =>
       if sym_is "i" h then option_map RInt (as_Z a)
-      else if sym_is "s" h then option_map RBytes (as_bytes a)
+      else if sym_is "s" h then option_map (fun b => RBytes b FQuoted) (as_bytes a)
       else if sym_is "v4" h then option_map (fun z => RIp (V4 z)) (as_Z a)
       else if sym_is "v6" h then option_map (fun z => RIp (V6 z)) (as_Z a)
       else None
@@ -180,19 +202,27 @@ Definition dec_quant (x : sexp) : option quant :=
 Definition dec_cmpop (x : sexp) : option cmpop :=
   if sym_is "istrue" x then Some CIsTrue
   else match x with
+       | SList [h; s; SBytes p; f] =>
+           if sym_is "wildcard" h then s' <-- as_bool s ;; f' <-- dec_fmt f ;; Some (CWildcard s' p f') else None
        | SList [h; o; r] =>
-           if sym_is "ord" h then o' <-- dec_ordop o ;; r' <-- dec_rhs r ;; Some (COrd o' r')
+           if sym_is "contains" h then p <-- as_bytes o ;; f <-- dec_fmt r ;; Some (CContains p f)
+           else if sym_is "matches" h then
+             p <-- as_bytes o ;; f <-- dec_fmt r ;;
+             match f with FRaw n => Some (CMatches p (Some n)) | _ => None end
+           else if sym_is "wildcard" h then s' <-- as_bool o ;; p <-- as_bytes r ;; Some (CWildcard s' p FQuoted)
+           else if sym_is "ord" h then o' <-- dec_ordop o ;; r' <-- dec_rhs r ;; Some (COrd o' r')
            else if sym_is "inlist" h then li <-- as_nat o ;; n <-- as_bytes r ;; Some (CInList li n)
            else None
        | SList [h; a] =>
            if sym_is "band" h then option_map CBitAnd (as_Z a)
-           else if sym_is "contains" h then option_map CContains (as_bytes a)
+           else if sym_is "contains" h then option_map (fun b => CContains b FQuoted) (as_bytes a)
+           else if sym_is "matches" h then option_map (fun b => CMatches b None) (as_bytes a)
            else if sym_is "in-int" h then
              l <-- as_list a ;; option_map COneOfInt (option_map_all dec_range l)
            else if sym_is "in-ip" h then
              l <-- as_list a ;; option_map COneOfIp (option_map_all dec_ip_item l)
            else if sym_is "in-bytes" h then
-             l <-- as_list a ;; option_map COneOfBytes (option_map_all as_bytes l)
+             l <-- as_list a ;; option_map COneOfBytes (option_map_all dec_blit l)
            else None
        | _ => None
        end.
